@@ -168,6 +168,7 @@ ALLOWED = {
     'mkexpr': {'op': 'set by the creators of the operator kinds that read it', 'u.': 'the arm of the expression kind is filled by the creator'},
     'mkglobal': {'u.i': OTHER_ARMS, 'u.f': OTHER_ARMS},
     'mkglobal(asm)': {'u.i': OTHER_ARMS, 'u.f': OTHER_ARMS},
+    'scanfrom': {'chr': 'the look-ahead character: read by nextchar() in scanopen() before the first token of the file is scanned'},
 }
 
 
@@ -224,6 +225,8 @@ def rule_constructors(chk, prog, tier):
         ('mkexpr', lambda w, it: [ev(prog, 'EXPRCONST'), w.t('int'), None], 'expr'),
         ('mkglobal', lambda w, it: [mkdecl_for_global(prog, w, it, False)], 'value'),
         ('mkglobal(asm)', lambda w, it: [mkdecl_for_global(prog, w, it, True)], 'value'),
+        # one scanner per input file; with a file name and no FILE yet (every input after the first) nothing is read at construction
+        ('scanfrom', lambda w, it: [Ptr(it.mkstr(list(b'b.c'), 'name'), (0,)), None], 'scanner'),
     ]
     for fname, argsf, recname in cons:
         fn = prog.func(fname.split('(')[0])
@@ -236,6 +239,7 @@ def rule_constructors(chk, prog, tier):
             w = World(prog, it=it, target='x86_64-sysv')
             it.models['xmalloc'] = lambda i2, a, e: Ptr(Obj('new', 'heap'), ())
             res = it.call(fn, argsf(w, it))
+            if res is None: res = it.gobj('scanner').f[()]           # scanfrom() links the new object into the global list
             return set(res.obj.f.keys()), fields_of(prog, it, rec)
         runs = explore(prog, runner, {}, max_runs=4)
         if len(runs) != 1 or runs[0].outcome != 'return':
@@ -327,3 +331,6 @@ def run(chk, tier):
     chk.guard('C20.f', lambda: rule_routes(chk, prog, tier))
     chk.guard('C20.g', lambda: rule_unsequenced(chk, prog, tier))
     chk.guard('C20.h', lambda: rule_key_lifetime(chk, prog, tier))
+    from props import c19
+    chk.guard('C19.s', lambda: c19.rule_released_arguments(chk, prog, tier))    # reads of freed memory make diagnostics (and lookups) depend on allocator state
+    chk.guard('C19.t', lambda: c19.rule_token_spellings(chk, prog, tier))
